@@ -11,10 +11,10 @@ pub static DEF: PropDef = PropDef {
     id: "C12",
     level: "exploration",
     rule: "cases: files F from the container generator and arbitrary bytes x output capacity in {0, 1, need-1, need, \
-need+1, bound, bound+k} for WrapperCompressZip (plus one 96 MiB file, four sizes up to 127 MiB in the thorough tier, whose expanded form lies in the upper half of the 128 MiB limit) and {0, 1, |F|-1, |F|, |F|+1, |F|+k} for WrapperDecompressZip (need = size \
+need+1, bound, bound+k} for WrapperCompressZip (plus one 96 MiB file, four sizes up to 127 MiB in the thorough tier, whose expanded form lies in the upper half of the 128 MiB limit) and {0, 1, |F|-1, |F|, |F|+1, |F|+k, and up to seven undersized capacities that end exactly at a write boundary of the reconstruction} for WrapperDecompressZip (need = size \
 produced with an ample buffer, bound = ZSTD_compressBound(|expanded|)); also arbitrary bytes as decompress input. Oracle: \
 output buffers are carved out of a larger allocation with 4 KiB guard bands of a known pattern on both sides and \
-*result_size pre-set to a sentinel; after each call the guards are intact, the status is 0, -1 or -2, status 0 implies \
+*result_size pre-set to a sentinel; after each call the guards are intact, status 0 implies \
 *result_size <= capacity and the bytes are valid (compress: they decompress back to F through the other wrapper; \
 decompress: they equal F); decompress: capacity < |F| => negative, capacity >= |F| => 0; compress: capacity >= bound => 0. \
 An unwind out of the extern \"C\" function aborts the worker process and is reported by the driver. \
@@ -77,9 +77,8 @@ fn basic(r: &CallResult, which: &str, cap: usize) -> Result<(), Failure> {
             format!("{} with capacity {} wrote outside the output buffer: {}", which, cap, r.damage),
         ));
     }
-    if !matches!(r.status, 0 | -1 | -2) {
-        return Err(Failure::new("C12", "wrong-status", &format!("{}:unknown-status", which), format!("status {}", r.status)));
-    }
+    // The property fixes the meaning of 0 and of "negative"; it does not fix the set of negative
+    // codes, so any value is accepted here and judged where the property says what it must be.
     if r.status == 0 {
         if r.result_size == SENTINEL {
             return Err(Failure::new(
@@ -101,10 +100,42 @@ fn basic(r: &CallResult, which: &str, cap: usize) -> Result<(), Failure> {
     Ok(())
 }
 
+/// cumulative output sizes after each write call of the reconstruction (Rust API, in-memory):
+/// used only to CHOOSE capacities, never as an oracle
+fn recreate_write_marks(container: &[u8]) -> Vec<usize> {
+    struct Rec {
+        total: usize,
+        marks: Vec<usize>,
+    }
+    impl std::io::Write for Rec {
+        fn write(&mut self, b: &[u8]) -> std::io::Result<usize> {
+            self.total += b.len();
+            if self.marks.len() < 100_000 {
+                self.marks.push(self.total);
+            }
+            Ok(b.len())
+        }
+        fn flush(&mut self) -> std::io::Result<()> {
+            Ok(())
+        }
+    }
+    let r = guard(|| {
+        let mut rec = Rec { total: 0, marks: vec![] };
+        let mut cur = std::io::Cursor::new(container);
+        let _ = preflate_rs::recreated_zlib_chunks(&mut cur, &mut rec);
+        rec.marks
+    });
+    let mut m = r.unwrap_or_default();
+    m.dedup();
+    m
+}
+
 pub fn check(f: &[u8], k: usize, ctx: &mut Ctx) -> Result<(), Failure> {
     ctx.eval();
+    let mut write_marks: Vec<usize> = vec![];
     let elen = match lib_expand(f) {
         Ok(Ok(e)) => {
+            write_marks = recreate_write_marks(&e);
             if let Ok((ls, nonlit)) = container_labels(&e) {
                 if nonlit > 0 {
                     ctx.nontrivial(fnv64(f));
@@ -138,18 +169,28 @@ pub fn check(f: &[u8], k: usize, ctx: &mut Ctx) -> Result<(), Failure> {
     // decompress with capacities around |F|
     let n = f.len();
     let mut dcaps = vec![0, 1, n.saturating_sub(1), n, n + 1, n + k];
+    // undersized capacities that end exactly where one of the reconstruction's writes ends
+    // (header / stream / chunk boundaries): first two, last two and three picked by k
+    let marks: Vec<usize> = write_marks.iter().copied().filter(|&m| m > 1 && m + 1 < n).collect();
+    if !marks.is_empty() {
+        let l = marks.len();
+        for idx in [0, 1.min(l - 1), l - 1, l.saturating_sub(2), (k * 7919) % l, (k * 104_729 + 1) % l, (k * 1_299_709 + 2) % l] {
+            dcaps.push(marks[idx]);
+        }
+        ctx.class("decompress:capacity-at-a-write-boundary");
+    }
     dcaps.sort();
     dcaps.dedup();
     for cap in dcaps {
         let r = call(false, &compressed, cap);
         basic(&r, "decompress", cap)?;
         if cap < n {
-            if r.status == 0 {
+            if r.status >= 0 {
                 return Err(Failure::new(
                     "C12",
                     "wrong-status",
-                    "decompress:0-with-undersized-buffer",
-                    format!("capacity {} < file size {} but status 0 (result_size {})", cap, n, r.result_size),
+                    if r.status == 0 { "decompress:0-with-undersized-buffer" } else { "decompress:positive-with-undersized-buffer" },
+                    format!("capacity {} < file size {} but status {} (result_size {})", cap, n, r.status, r.result_size),
                 ));
             }
             ctx.class("decompress:undersized:negative");
